@@ -173,11 +173,21 @@ theorem invT_hello (s : Server) (sid : Nat) (m : Bool) (h : InvT s) : InvT (hell
   · exact h
 
 theorem invT_listen (s : Server) (sid id : Nat) (kinds : List Kind) (uris : List Nat) (h : InvT s) :
-    InvT (listen s sid id kinds uris).1 := by
+    InvT (listen s sid id kinds uris) := by
   unfold listen
   split
   · exact h.frame rfl (fun p hp => ⟨hp, h.1 p hp⟩) (fun k => ⟨rfl, rfl, rfl⟩)
   · exact h
+
+theorem invT_listenAck (s : Server) (sid id : Nat) (h : InvT s) : InvT (listenAck s sid id).1 := by
+  unfold listenAck
+  split
+  · exact h
+  · split
+    · exact h
+    · split
+      · exact h.frame rfl (fun p hp => ⟨hp, h.1 p hp⟩) (fun k => ⟨rfl, rfl, rfl⟩)
+      · exact h.frame rfl (fun p hp => ⟨hp, h.1 p hp⟩) (fun k => ⟨rfl, rfl, rfl⟩)
 
 theorem invT_listenEnd (s : Server) (sid id : Nat) (h : InvT s) : InvT (listenEnd s sid id) := by
   unfold listenEnd
@@ -217,6 +227,7 @@ theorem invT_step (s : Server) (l : Label) (h : InvT s) : InvT (step s l).1 := b
   | bind sid => exact invT_bind s sid h
   | hello sid m => exact invT_hello s sid m h
   | listen sid id kinds uris => exact invT_listen s sid id kinds uris h
+  | listenAck sid id => exact invT_listenAck s sid id h
   | listenEnd sid id => exact invT_listenEnd s sid id h
   | subscribe sid id u => exact invT_subscribe s sid id u h
   | unsubscribe sid u => exact invT_unsubscribe s sid u h
